@@ -9,7 +9,7 @@
   Full statement (goal): `∀ ops, (ops.foldl step init).inv` for the whole mutating API, and
   `isRemoved` monotone along every history.
 -/
-import XotModel.Lemmas.FinvReach2
+import XotModel.Lemmas.FinvClone
 
 namespace XotModel.Props
 open XotModel
@@ -294,6 +294,12 @@ theorem C04_cloneKids (f f' : Forest) (current : Nat) (ks : List HTree) (h : f.I
 theorem C04_cloneNode_partial (f : Forest) (node : Nat) (h : f.Inv) (hne : f.isElement node = false) :
     (f.cloneNode node).1.Inv := Forest.cloneNode_inv_of_not_element h node hne
 
+/-- `clone_node` of an element, under the decidable guard `Forest.cloneTopOK`: after the replay
+    the temporary top element is still parentless and has at most one child, which is what the
+    final indextree `remove` of the top needs.  That the guard always holds is not proved. -/
+theorem C04_cloneNode_guarded (f : Forest) (node : Nat) (h : f.Inv) (hok : f.cloneTopOK node = true) :
+    (f.cloneNode node).1.Inv := Forest.cloneNode_inv_of_topOK h node hok
+
 /-- Non-vacuity: a strict forest with a gap (`<a>x<b/>y</a>`, `b` between two texts) and one
     without; the unproved region is not empty and the model keeps the invariant there on these
     instances (evaluation, not proof). -/
@@ -303,5 +309,6 @@ example : (gapForest.replace 2 4).1.inv = true := by decide
 example : (gapForest.replace 2 5).1.inv = true := by decide
 example : (gapForest.replace 1 5).1.inv = true := by decide
 example : (gapForest.elementWrap 2 9).1.inv = true := by decide
+example : gapForest.cloneTopOK 0 = true := by decide
 
 end XotModel.Props
